@@ -344,9 +344,10 @@ fn process(acc: &mut Acc, cfg: &Cfg, gapless: bool, base: &str) {
         if it.kind != "impl" {
             acc.class(&it.name, "vis", &it.vis, cfg, true);
             if !requested.contains(&it.name) {
-                acc.helper_vis.entry(it.name.clone()).or_default().insert(it.vis.clone());
+                let qual = if it.owner.is_empty() || it.owner == "E" { it.name.clone() } else { format!("{}::{}", it.owner, it.name) };
+                acc.helper_vis.entry(qual.clone()).or_default().insert(it.vis.clone());
                 if !it.vis.is_empty() && acc.unrequested_public.len() < 40 {
-                    acc.unrequested_public.push((cfg.clone(), format!("{} has visibility `{}`", it.name, it.vis)));
+                    acc.unrequested_public.push((cfg.clone(), format!("{} has visibility `{}`", qual, it.vis)));
                 }
             }
         }
